@@ -6,6 +6,7 @@ package leasetime
 
 import (
 	"errors"
+	"math"
 	"time"
 
 	"github.com/coredhcp/coredhcp/handler"
@@ -49,6 +50,12 @@ func setup4(args ...string) (handler.Handler4, error) {
 	leaseTime, err := time.ParseDuration(args[0])
 	if err != nil {
 		log.Errorf("invalid duration: %v", args[0])
+		return nil, errors.New("lease_time failed to initialize")
+	}
+	// the option carries the lease time as an unsigned 32-bit number of seconds: a negative duration or one
+	// that does not fit would be announced as a different lease time (parts of a second are not sent)
+	if leaseTime < 0 || leaseTime > math.MaxUint32*time.Second {
+		log.Errorf("invalid duration: %v (want 0 to %d seconds)", args[0], uint32(math.MaxUint32))
 		return nil, errors.New("lease_time failed to initialize")
 	}
 	v4LeaseTime = leaseTime
